@@ -3,7 +3,11 @@ Require Import List Arith Bool Lia Permutation ZArith.
 Require Import Raft.Quorum.
 Import ListNotations.
 
-Local Ltac Zify.zify_post_hook ::= Z.div_mod_to_equations.
+Lemma half_facts : forall n, 2 * (n / 2) <= n < 2 * (n / 2) + 2.
+Proof.
+  intros n. pose proof (Nat.div_mod_eq n 2) as H.
+  pose proof (Nat.mod_upper_bound n 2 ltac:(lia)) as H2. lia.
+Qed.
 
 (* ------------------------------------------------------------------ counting *)
 
@@ -223,20 +227,20 @@ Proof.
   assert (Hls : length s = n) by (unfold s; rewrite isort_length, map_length; reflexivity).
   assert (Hs : sorted s) by apply isort_sorted.
   set (k := n - (n / 2 + 1)) in *.
-  assert (Hk : k < length s) by (unfold k; lia).
+  assert (Hk : k < length s) by (unfold k; pose proof (half_facts n); lia).
   assert (Hc : forall r0, count (acked_ge acked r0) l = count (fun x => r0 <=? x) s).
   { intros r0. unfold s. rewrite <- (count_perm _ _ _ (isort_perm _)), count_map. reflexivity. }
   split.
-  - right. fold n. rewrite Hc. pose proof (sorted_count_ge s k Hs Hk) as Hge. rewrite H in Hge. unfold k in *. lia.
+  - right. fold n. rewrite Hc. pose proof (sorted_count_ge s k Hs Hk) as Hge. rewrite H in Hge. unfold k in *. pose proof (half_facts n). lia.
   - intros r' Hr' [E|Hm]; [unfold l in E; discriminate|]. fold n in Hm. rewrite Hc in Hm.
-    pose proof (sorted_count_gt s k r' Hs Hk ltac:(lia)) as Hgt. unfold k in *. lia.
+    pose proof (sorted_count_gt s k r' Hs Hk ltac:(lia)) as Hgt. unfold k in *. pose proof (half_facts n). lia.
 Qed.
 
 Lemma xmin_fin : forall a b r, xmin a b = Fin r ->
   (a = Fin r /\ (b = Top \/ exists r2, b = Fin r2 /\ r <= r2)) \/
   (b = Fin r /\ (a = Top \/ exists r1, a = Fin r1 /\ r <= r1)).
 Proof.
-  intros a b r H. destruct a as [x|], b as [y|]; cbn in H.
+  intros a b r H. destruct a as [x|], b as [y|]; unfold xmin in H.
   - destruct (x <? y) eqn:E; injection H as H; subst.
     + apply Nat.ltb_lt in E. left. split; [reflexivity|right; exists y; split; [reflexivity|lia]].
     + apply Nat.ltb_ge in E. right. split; [reflexivity|right; exists x; split; [reflexivity|lia]].
@@ -276,7 +280,7 @@ Proof.
       * intros r' Hr' [_ J1]. exact (M1 r' Hr' J1).
   - unfold joint_committed_index. split.
     + intros H. destruct (majority_committed_index c0 acked) eqn:E0, (majority_committed_index c1 acked) eqn:E1;
-        cbn in H; try discriminate.
+        unfold xmin in H; try discriminate.
       * destruct (n <? n0); discriminate.
       * split; eapply maj_committed_top; eassumption.
     + intros [-> ->]. reflexivity.
@@ -308,6 +312,7 @@ Proof.
     pose proof (count_partition3 votes l) as Hp.
     set (yes := count (granted votes) l) in *. set (mis := count (missing votes) l) in *.
     assert (Hl : 1 <= length l) by (unfold l; cbn; lia).
+    pose proof (half_facts (length l)) as Hh.
     assert (Hw : maj_sat l (granted votes) <-> length l / 2 + 1 <= yes).
     { unfold maj_sat. fold yes. split; [intros [E|H]; [unfold l in E; discriminate|lia]|intros H; right; lia]. }
     assert (Hn : maj_sat l (not_rejected votes) <-> length l / 2 + 1 <= yes + mis).
